@@ -77,6 +77,8 @@ def main() -> int:
     ap.add_argument('--only')
     ap.add_argument('--jobs', type=int, default=int(os.environ.get('VERIF_JOBS', os.cpu_count() or 4)))
     ap.add_argument('--no-evidence', action='store_true')
+    ap.add_argument('--budget', type=float, default=float(os.environ.get('VERIF_BUDGET', '0') or 0),
+                    help='wall-clock budget in seconds for the whole tier (0 = the declared per-obligation caps)')
     a = ap.parse_args()
     pid = a.prop
     if a.replay:
@@ -102,20 +104,57 @@ def main() -> int:
     for o in obs:
         o.setdefault('shard', {})
         o['shard']['_known'] = known_fps
-    # longest first
-    order = sorted(range(len(obs)), key=lambda i: -float(obs[i].get('timeout', 60)))
+    # Wall-clock budget: the declared per-obligation caps are worst cases; with --budget the caps
+    # are scaled so that pass 1 cannot use more than 60% of the budget, and whatever is left is
+    # redistributed in pass 2 over the obligations that did not finish. An obligation that does
+    # not finish is reported as inconclusive, never as held.
+    declared = [float(o.get('timeout', 60)) for o in obs]
+    factor = 1.0
+    if a.budget > 0 and declared:
+        factor = min(1.0, 0.6 * a.budget * a.jobs / max(sum(declared), 1.0))
+    for o, d in zip(obs, declared):
+        o['timeout'] = d if factor >= 1.0 else round(min(d, max(20.0, d * factor)), 1)
     results: list[dict | None] = [None] * len(obs)
-    with cf.ThreadPoolExecutor(max_workers=a.jobs) as ex:
-        futs = {ex.submit(run_worker, modname, obs[i]): i for i in order}
-        for f in cf.as_completed(futs):
-            i = futs[f]
-            results[i] = f.result()
-            r = results[i]
-            print('[%s] %-52s %-12s paths=%s solver=%ss wall=%ss' % (
-                pid, obs[i]['name'][:52], r['status'], r.get('paths', r.get('queries', '-')),
-                r.get('solver_s', '-'), r.get('wall_s', '-')), flush=True)
-            if r['status'] == 'error':
-                print('    error:', str(r.get('error'))[-600:], flush=True)
+
+    # scheduling hint only: wall time of each obligation in an earlier run (selftest/update_weights.py)
+    try:
+        weights = json.load(open(os.path.join(ROOT, 'vf', 'weights.json'))).get(pid, {}).get(a.tier, {})
+    except Exception:
+        weights = {}
+
+    def run_pass(idx: list[int]) -> None:
+        # longest first (expected duration where known, else the cap)
+        order = sorted(idx, key=lambda i: -min(float(weights.get(obs[i]['name'], 1e9)), float(obs[i].get('timeout', 60))))
+        with cf.ThreadPoolExecutor(max_workers=a.jobs) as ex:
+            futs = {ex.submit(run_worker, modname, obs[i]): i for i in order}
+            for f in cf.as_completed(futs):
+                i = futs[f]
+                results[i] = f.result()
+                r = results[i]
+                r['cap_s'] = obs[i]['timeout']
+                print('[%s] %-52s %-12s paths=%s solver=%ss wall=%ss' % (
+                    pid, obs[i]['name'][:52], r['status'], r.get('paths', r.get('queries', '-')),
+                    r.get('solver_s', '-'), r.get('wall_s', '-')), flush=True)
+                if r['status'] == 'error':
+                    print('    error:', str(r.get('error'))[-600:], flush=True)
+
+    run_pass(list(range(len(obs))))
+    if factor < 1.0:
+        left = [i for i, r in enumerate(results) if r and r['status'] == 'inconclusive'
+                and float(obs[i]['timeout']) < declared[i]]
+        remaining = a.budget - (time.time() - t0)
+        if left and remaining > 120:
+            share = remaining * 0.9 * min(a.jobs, len(left)) / len(left)
+            redo = []
+            for i in left:
+                t = round(min(declared[i], share), 1)
+                if t >= 1.5 * float(obs[i]['timeout']):
+                    obs[i]['timeout'] = t
+                    redo.append(i)
+            if redo:
+                print('[%s] pass 2: %d unfinished obligations re-run with caps up to %.0fs' % (pid, len(redo), share),
+                      flush=True)
+                run_pass(redo)
 
     violations, harness_errors, replays_run = [], [], 0
     os.makedirs(os.path.join(ROOT, 'replays', pid), exist_ok=True)
@@ -182,7 +221,7 @@ def main() -> int:
              'shard': {k: v for k, v in o['shard'].items() if k != '_known'},
              'status': r['status'], 'paths': r.get('paths', r.get('queries')), 'solver_s': r.get('solver_s'),
              'wall_s': r.get('wall_s')}
-        for k in ('cex', 'args', 'detail', 'replay', 'queries', 'sub'):
+        for k in ('cex', 'args', 'detail', 'replay', 'queries', 'sub', 'cap_s'):
             if k in r:
                 s[k] = r[k]
         samples.append(s)
@@ -204,7 +243,8 @@ def main() -> int:
             'functions_encoded': getattr(mod, 'ENCODED', []),
             'bounds': getattr(mod, 'BOUNDS', {}).get(a.tier, getattr(mod, 'BOUNDS', {})),
             'outside_bounds': getattr(mod, 'OUTSIDE', ''),
-            'checker_cmd': './check %s --tier %s' % (pid, a.tier),
+            'checker_cmd': './check %s --tier %s%s' % (pid, a.tier, (' --budget %g' % a.budget) if a.budget else ''),
+            'budget_s': a.budget, 'cap_scale_pass1': round(factor, 4),
             'trusted_base': ['CrossHair 0.0.110 symbolic executor (short-circuiting disabled)', 'z3 5.1.0',
                              'CPython 3.12 semantics of the traced code', 'harness oracle code in harness/%s.py' % pid],
             'known_findings_listed': known_fps,
@@ -217,6 +257,12 @@ def main() -> int:
     if not a.no_evidence and not a.only:
         os.makedirs(os.path.join(ROOT, 'evidence'), exist_ok=True)
         json.dump(ev, open(os.path.join(ROOT, 'evidence', pid + '.json'), 'w'), indent=1, default=str)
+        if a.tier == 'thorough':
+            # the per-property evidence file is rewritten by every run; a copy of the last
+            # thorough run is kept next to it
+            os.makedirs(os.path.join(ROOT, 'evidence', 'thorough'), exist_ok=True)
+            json.dump(ev, open(os.path.join(ROOT, 'evidence', 'thorough', pid + '.json'), 'w'), indent=1,
+                      default=str)
     print('[%s] tier=%s obligations=%d discharged=%d inconclusive=%d refuted=%d errors=%d paths=%d '
           'solver_queries=%d solver_s=%s wall=%ss' % (pid, a.tier, n, discharged, len(inconcl), len(violations),
                                                       len(harness_errors), paths, queries, solver_s, wall))
